@@ -128,11 +128,12 @@ func main() {
 			}()
 			pr.Run(c)
 		}()
-		out := c.Finish(kf)
 		extra := map[string]interface{}{}
 		if *tier == "thorough" {
-			extra["thorough"] = thorough(p, pr, c, *verif, *repo, out)
+			dummy := &core.Outcome{}
+			extra["thorough"] = thorough(p, pr, c, *verif, *repo, dummy)
 		}
+		out := c.Finish(kf)
 		fmt.Printf("%s %s: %d obligations, %d violated/undecided, %d known findings, repo=%s\n", id, pr.Title, len(c.Obs), len(out.Violations), len(out.Known), *repo)
 		fmt.Print(c.Summary())
 		obs := append([]*core.Obligation{}, c.Obs...)
